@@ -7,6 +7,7 @@ pub mod checks;
 pub mod faults;
 pub mod report;
 pub mod runner;
+pub mod seq;
 pub mod trace;
 
 use epserde::deser::{self, Deserialize, DeserializeInner, ReadWithPos, SliceWithPos};
